@@ -60,7 +60,9 @@ func (n ScaleNote) GetDegree(x *ScaleNote, isSharp bool) (note.Degree, error) {
 	get := func(cds ...note.CoerceDegreeName) (note.Degree, bool) {
 		for _, cd := range cds {
 			if d, ok := cd.Degree(value); ok {
-				if ds, _ := d.Semitone(); ds == s {
+				// the pitch distance is only known up to octaves (F# above Gb is an
+				// augmented seventh: 12 semitones, read off as 0)
+				if ds, _ := d.Semitone(); (ds-s)%oct == 0 {
 					return d, true
 				}
 			}
